@@ -68,3 +68,63 @@ func VerifC07_Relay_CancelFirst_2()     { verifC07Relay(2, true, false) }
 func VerifC07_Relay_CancelFirst_2_Ref() { verifC07Relay(2, true, true) }
 func VerifC07_Relay_Anywhere_2()        { verifC07Relay(2, false, false) }
 func VerifC07_Relay_Anywhere_3()        { verifC07Relay(3, false, true) }
+
+// the same with the outer tracer replaced by a recording stand-in (Send appends, RegisterSender counts): only the inner
+// tracer and the relay goroutine are real, which keeps the schedule short enough to close
+type verifOut struct {
+	got     [4]int64
+	n       int64
+	senders int64
+	done    chan struct{}
+}
+type verifOutHandle struct{ o *verifOut }
+
+func (h verifOutHandle) Done()                                 { h.o.senders-- }
+func (o *verifOut) Subscribe() chan ITrace                     { return nil }
+func (o *verifOut) SubscribeChannel(c chan ITrace) chan ITrace { return c }
+func (o *verifOut) Unsubscribe(chan ITrace)                    {}
+func (o *verifOut) Send(t ITrace) {
+	o.got[o.n] = int64(verifTag(t))
+	o.n++
+}
+func (o *verifOut) RegisterSender() ISenderHandle { o.senders++; return verifOutHandle{o} }
+func (o *verifOut) Done() chan struct{}           { return o.done }
+
+func verifC07RelayStubOut(n int, cancelFirst bool) {
+	ctx, cancel := context.WithCancel(context.Background())
+	out := &verifOut{done: make(chan struct{})}
+	in := NewTracer(ctx)
+	NewRelay(ctx, in, out, func(t ITrace) []ITrace { return []ITrace{t} })
+	h := in.RegisterSender()
+	var sent int64
+	if cancelFirst {
+		cancel()
+	} else {
+		go func() { cancel() }()
+	}
+	go func() {
+		for q := 0; q < n; q++ {
+			in.Send(verifTrace{sender: 0, seq: q})
+			verifAdd(&sent, 1)
+		}
+		h.Done()
+	}()
+	verifQuiesce()
+	verifReach("quiescent")
+	verifAssert(verifGet(&sent) == int64(n), "every Send of a registered sender returns after cancellation")
+	inDone := false
+	select {
+	case <-in.Done():
+		inDone = true
+	default:
+	}
+	verifAssert(inDone, "after cancellation and the last sender's Done the inner tracer's goroutine has exited")
+	verifAssert(out.senders == 0, "after cancellation the relay has released its sender handle on the outer tracer")
+	verifAssert(out.n == int64(n), "traces sent by a registered sender before it reports Done are relayed even after cancellation")
+	for q := 0; q < n && q < int(out.n); q++ {
+		verifAssert(out.got[q] == int64(q), "relayed traces keep their order")
+	}
+}
+
+func VerifC07_RelayStubOut_CancelFirst_2() { verifC07RelayStubOut(2, true) }
+func VerifC07_RelayStubOut_Anywhere_2()    { verifC07RelayStubOut(2, false) }
